@@ -2,6 +2,9 @@ PROP = dict(
     id="C08",
     engines=["c08"],
     go_tags=["c08"],
+    extract_files={
+        "MM/Gen/LockC08.lean": {"cmd": ["go", "run", "{VERIF}/tools/lockshape.go", "LockC08", "{REPO}/internal/routing/table.go", "Table.AddRoute,Table.RemoveRoute,Table.RemoveRoutesFromPeer,Table.CleanupStaleRoutes,Table.Clear,Table.Lookup,Table.LookupAll,Table.GetRoute,Table.HasRoute", "mu", "routes"]},
+    },
     lean_modules=["MM.Props.C08"],
     theorems=[
         "MM.C08.C08_inv_step",
@@ -26,6 +29,8 @@ PROP = dict(
          "answer against the implementation's own dump. Non-trivial = a lookup that returned a route, or a mutation that was accepted.",
     nontrivial=lambda op, out: (op.startswith(("look", "get")) and out.startswith(("route", "routes E"))) or out.startswith(("true", "1 ", "2 ", "3 ", "4 ", "5 ")),
     trusted_base=[
+        "tools/lockshape.go (go/ast): the lock-shape facts MM/Gen/Lock*.lean the atomic-step theorems are decided on; goroutine scheduling "
+        "inside one critical section and sync.RWMutex itself are assumed, not modelled",
         "MM/Model/C08.lean: net.IPNet / net.IP modelled as (byte length, big-endian value, CIDRMask(ones,bits)); Contains / Mask / To4 / "
         "networkNumberAndMask modelled numerically (shift compare instead of byte-wise AND) - modelled, validated by T-diff, not verified",
         "net.IPNet.String() assumed one-to-one on (network number, mask) - the model uses that pair as the map key",
@@ -34,6 +39,9 @@ PROP = dict(
         "stays far below the half-hour rounding margin",
     ],
     assumptions=[
+        "each table method is one atomic step: tied to the source by the *_atomic_steps theorems (one lock acquisition per method, route map "
+        "touched only under the write lock in mutators, read under R/W in lookups) and exercised by the `race` stress op (goroutines released at "
+        "once, up to 400 attempts per op, outcome must be a well-formed table equal to the result of some serial order)",
         "only contiguous masks (net.CIDRMask) are representable; hand-built non-contiguous net.IPMask values are outside the model",
         "the CIDR table is the one after fixes/C08-canonical-network.patch (C08_unrepaired_refuted shows the statement is false without it)",
         "an address that is neither 4 nor 16 bytes long (net.IP nil after To16) is 'contained' by malformed networks only, as net.IPNet.Contains "
@@ -50,3 +58,28 @@ PROP = dict(
         technique="Lean 4 proof (inductive invariant + fold argmax) + differential correspondence harness + executable statement on impl answers",
     ),
 )
+
+
+# --- atomic-step tie ---------------------------------------------------------------------------
+# The lock-shape theorems live in their own Lean module and are built here, not in the main build:
+# when they break (a critical section was split or an access moved out of it) the model and the
+# driver still build, so the differential run and the failing-input search (concurrency stress op
+# `race`) can still look for a concrete bad outcome.
+LOCK_MODULE = "MM.Props.C08Lock"
+LOCK_THEOREMS = ['MM.C08.C08_atomic_steps']
+
+
+def before_diff(c):
+    import vlib
+    ok, out, failed = vlib.lake_build([LOCK_MODULE])
+    if not ok:
+        c.oblige("tie:atomic-steps(" + LOCK_MODULE + ")", "tie", False,
+                 "a table method no longer is one critical section under the write lock (see MM/Gen/Lock*.lean):\n" + "\n".join(failed) + "\n" + out[-1500:])
+        return
+    res, text = vlib.audit_axioms([LOCK_MODULE], LOCK_THEOREMS)
+    for t in LOCK_THEOREMS:
+        ax = res.get(t)
+        c.axioms[t] = ax
+        c.oblige("thm:" + t, "thm", ax is not None and all(a in vlib.ALLOWED_AXIOMS for a in ax), "axioms: " + ", ".join(ax or ["<missing>"]))
+    hits = vlib.grep_forbidden([vlib.module_file(m) for m in vlib.transitive_local_imports([LOCK_MODULE])])
+    c.oblige("no-sorry-admit-native_decide-axiom(lock)", "audit", not hits, "\n".join(hits))
